@@ -27,7 +27,11 @@ def run(tier, seed, replay=None):
         R.cov['rule'] = ('histories: 1-3 compute(maxit in {0,1,2,3,300,1000}, tol in {1e-3..1e-12}) interleaved with singular_values / matrix_U(k) / matrix_V(k), k in 0..ncomp+2; '
                          'shapes tall/wide/square 2..14 (thorough: ..40); dense col/row-major and sparse col/row-major; matrices: uniform random, small integers with zeros, graded singular values over 1-3 decades, '
                          'rank-deficient (integer products, real products, duplicated rows/columns), scaled by 1e-8..1e6; perform_op of SVDTallMatOp/SVDWideMatOp on all four storage variants; '
-                         'full-rank matrices scaled by 1e-8..1e8; fixed F4/F5/F12 witnesses; distinct request lines counted')
+                         'full-rank matrices scaled by 1e-8..1e8; fixed F4/F5/F12 witnesses; '
+                         'partial-convergence share (stream 6, half of it also in the correspondence): A = P S W\' with prescribed spectra (families top-pair, top-triple, second-pair, hidden-lead, hidden-lead-pair, hidden-lead-plain: '
+                         'cluster of relative gap 1e-9..1e-6 next to separated values, linear tail), the operator-side leading singular vector orthogonal to the start vector SimpleRandom(0).random_vec(dim) up to delta in {0,1e-8..1e-3}, '
+                         'd = 10..30 (thorough ..40), tall/wide/square by idx mod 3, ncv - ncomp in {1,2,3,ncomp}, 3-6 compute(maxit in 1..12, tol in {1e-6..1e-12}) per object each followed by S/U/V; every returned value must be a singular value of A '
+                         '(distance to the reference spectrum <= (100 tol + 1e-9)||A||, also when fewer than ncomp converged) and the factor identities are graded on whatever was returned; 6 fixed sin-matrix witnesses with maxit = 1..12 (stream 7); distinct request lines counted')
         R.cov['exhaustive'] = False
-        R.cov['input_histogram'] = {k: v for k, v in st.items() if k.startswith(('shape_', 'kind_', 'variant_', 'compute_', 'op_', 'opcase_'))}
+        R.cov['input_histogram'] = {k: v for k, v in st.items() if k.startswith(('shape_', 'kind_', 'variant_', 'compute_', 'op_', 'opcase_', 'cluster_', 'partial_witness', 'all_converged_'))}
     return R.finish()
